@@ -51,7 +51,9 @@ Print Assumptions C33_recover_retry_points.
 (* Second tie (DESIGN 3.5, docs/gotrans.md): checkRaftConfiguration as translated from store/state.go on this run
    rejects exactly what check_configuration rejects (gen_check = the generated function on the model's servers,
    with strings.Contains / net.SplitHostPort instantiated by the model's has_sub / split_host_port_ok). *)
-From RQ Require Import Lib.GoLib Gen.RaftConfig Proofs.C33_Gen.
+From RQ Require Import Lib.GoLib.
+From RQ Require Import Gen.RaftConfig.
+From RQ Require Import Proofs.C33_Gen.
 Theorem C33_source_derived_eq : forall (E : Type) (e : E) (errorf : string -> E) (l : list server),
   isSome (gen_check E e errorf l) = negb (check_configuration l).
 Proof. exact gen_raftconfig_eq. Qed.
